@@ -101,6 +101,12 @@ class _IntMeta(type):
 
 class sym_int(metaclass=_IntMeta):
     def __new__(cls, *a, **k):
+        if cls is not sym_int:
+            # `int.__new__(klass, value)` written inside an exabgp module: klass is a real int subclass
+            if a and _isinstance(a[0], (SInt, SBool)):
+                x = a[0]
+                return lift_value(cls, SInt(lift(x), 0, 1) if _isinstance(x, SBool) else x)
+            return _int.__new__(cls, *a, **k)
         if _len(a) >= 1 and not k:
             x = a[0]
             if _isinstance(x, SInt):
@@ -195,6 +201,8 @@ def _bytes_from(a, k, real):
 
 class sym_bytes(metaclass=_BytesMeta):
     def __new__(cls, *a, **k):
+        if cls is not sym_bytes:
+            return _bytes.__new__(cls, *a, **k)
         return _bytes_from(a, k, _bytes)
 
 
@@ -502,12 +510,43 @@ def sx_bmod(fmt, args):
     return fmt % args
 
 
+class DottedQuad(SampledStr):
+    """'%d.%d.%d.%d' rendered from four byte items of which some are symbolic (Open.router_id).  The text shown is
+    the model's, but the items are kept: inet_pton(AF_INET, text) gives exactly those four bytes back for EVERY
+    value (each item is in 0..255), so the text round trip does not lose the symbolic value."""
+
+    def __contains__(self, o):
+        if o == '.':
+            return True
+        if o == ':':
+            return False
+        return SampledStr.__contains__(self, o)
+
+
+def sx_dotted(fmt, args):
+    """`'%d.%d.%d.%d' % (a, b, c, d)` with a literal receiver (reached through the AST rewrite)."""
+    if (_isinstance(args, tuple) and _len(args) == 4 and any(_isinstance(a, SInt) for a in args)
+            and all(type(a) is _int and 0 <= a <= 255 or _isinstance(a, SInt) and a.lo is not None and a.hi is not None
+                    and a.lo >= 0 and a.hi <= 255 for a in args)):
+        q = DottedQuad(fmt % tuple(engine().sample(a) if _isinstance(a, SInt) else a for a in args))
+        q.sx_items = list(args)
+        return q
+    return fmt % args
+
+
 class _SymSocket:
     """The socket module with address-to-text made a *sampled* rendering (formatting, never a verdict)."""
 
     def __getattr__(self, name):
         import socket
         return getattr(socket, name)
+
+    @staticmethod
+    def inet_pton(family, text):
+        import socket
+        if _isinstance(text, DottedQuad) and family == socket.AF_INET:
+            return SBytes(list(text.sx_items))
+        return socket.inet_pton(family, text)
 
     @staticmethod
     def inet_ntop(family, data):
@@ -569,6 +608,7 @@ def shadow(mod):
         g['struct'] = sym_struct
     g['__sx_join__'] = sx_join
     g['__sx_bmod__'] = sx_bmod
+    g['__sx_dotted__'] = sx_dotted
 
 
 # ----------------------------------------------------------------------------- value classes
